@@ -21,7 +21,7 @@ Definition closer_after (pc : cpc) : bool := closer_phase pc && negb (closer_ear
 (* where the owner of the open transaction can be *)
 Definition owner_ok (pc : cpc) : bool :=
   match pc with
-  | IdleTr | RetTr | OT5 _ | LB1 | LB2 | LB3 _ | LB4 | LB5
+  | IdleTr | RetTr | OT5 _ | OT4b _ | OT6 _ | OT7 _ | OT7d _ | LB1 | LB2 | LB3 _ | LB4 | LB5
   | CM0 _ | CM1 _ | CM2 _ | CM3 _ | CM4 _ | CM5 _ _ | CM6 _ _ | CM6c _ | CM5f _ | CM7 _ | CM8 _ | CM8b _ | CM9 _
   | CMFu _ | CMF _
   | DC0 XUser | DC0 XLB | DC1 XUser | DC1 XLB | DC2 XUser | DC2 XLB
@@ -33,7 +33,7 @@ Definition owner_ok (pc : cpc) : bool :=
 Definition tropen_pc (pc : cpc) : bool :=
   match pc with
   | CM3 _ | CM4 _ | CM5 _ _ | CM6 _ _ | CM6c _ | CM5f _ | CM7 _ | CM8 _ | CM8b _ | CM9 _
-  | TrigS _ (SCmWc _) | TrigW _ (SCmWc _) | DC2 _ => true
+  | TrigS _ (SCmWc _) | TrigW _ (SCmWc _) | DC2 _ | OT7d _ => true
   | _ => false
   end.
 (* the lock holder may have merged writers waiting for it *)
@@ -230,28 +230,40 @@ Proof.
 Qed.
 
 
-(* some step that is not an arrival is enabled *)
-Definition G (s : state) : Prop :=
-  exists a, is_arrival fixed s a = false /\ exists s', step fixed s a = Some s'.
+(* some step that is not an arrival is enabled.  The STRICT reading (st = Strict) also excludes every step of a
+   client that stands at IdleTr (the owner of a Transaction handle starting Commit / Discard): used for the
+   closing phase, where -- after repair fb021ae -- nobody has to wait for such an owner. *)
+Definition at_idletr (s : state) (a : action) : bool :=
+  match a with ACli i _ _ => match cli s i with IdleTr => true | _ => false end | _ => false end.
+Inductive rmode := Loose | Strict.
+Lemma rmode_cases : forall m : rmode, m = Loose \/ m = Strict.
+Proof. destruct m; auto. Qed.
+Definition Gs (st : rmode) (s : state) : Prop :=
+  exists a, is_arrival fixed s a = false /\ (st = Strict -> at_idletr s a = false) /\ exists s', step fixed s a = Some s'.
+
+Section Progress.
+Variable st : rmode.
+Local Notation G := (Gs st).
 
 Lemma G_m : forall s k l pc' s1,
   nth_error (medges (mc s)) k = Some (l, pc') -> lsem fixed PM l 0 s = Some s1 -> G s.
 Proof.
-  intros s k l pc' s1 N L. exists (AM k). split; [reflexivity|]. simpl. rewrite N, L. eauto.
+  intros s k l pc' s1 N L. exists (AM k). split; [reflexivity|]. split; [reflexivity|]. simpl. rewrite N, L. eauto.
 Qed.
 Lemma G_t : forall s k l pc' s1,
   nth_error (tedges (tc s)) k = Some (l, pc') -> lsem fixed PT l 0 s = Some s1 -> G s.
 Proof.
-  intros s k l pc' s1 N L. exists (AT k). split; [reflexivity|]. simpl. rewrite N, L. eauto.
+  intros s k l pc' s1 N L. exists (AT k). split; [reflexivity|]. split; [reflexivity|]. simpl. rewrite N, L. eauto.
 Qed.
 Lemma G_c : forall s i k arg l pc' s1,
   nth_error (cedges fixed (cli s i)) k = Some (l, pc') -> lsem fixed (PCli i) l arg s = Some s1 ->
-  cli s i <> Idle -> (cli s i = IdleTr -> pc' <> TP1) -> G s.
+  cli s i <> Idle -> (cli s i = IdleTr -> pc' <> TP1) -> (st = Strict -> cli s i <> IdleTr) -> G s.
 Proof.
-  intros s i k arg l pc' s1 N L NI NT. exists (ACli i k arg). split.
+  intros s i k arg l pc' s1 N L NI NT NS. exists (ACli i k arg). split; [| split].
   - simpl. destruct (cli s i) eqn:E; try reflexivity; try congruence.
     change (match nth_error (cedges fixed IdleTr) k with Some (_, TP1) => true | _ => false end = false).
     rewrite N. destruct pc'; try reflexivity. exfalso; apply NT; auto.
+  - intro S. simpl. specialize (NS S). destruct (cli s i); try reflexivity. congruence.
   - simpl. rewrite N, L. eauto.
 Qed.
 
@@ -265,7 +277,7 @@ Lemma ce_quiet : forall s, inv2 s -> G s \/ (closeC s = true -> ce s = E_done).
 Proof.
   intros s I2. destruct (closeC s) eqn:HC; [| right; discriminate].
   destruct (ce s) eqn:HE; try (right; reflexivity); left;
-    (exists (ACE 1); split; [reflexivity | simpl; unfold step_ce, guard; rewrite HE, HC; eauto]).
+    (exists (ACE 1); split; [reflexivity | split; [reflexivity | simpl; unfold step_ce, guard; rewrite HE, HC; eauto]]).
 Qed.
 
 Lemma mf_dec : forall m, m = MF true \/ m <> MF true.
@@ -347,7 +359,9 @@ Ltac c_act i k arg :=
           | unfold wl_is, cl_is, wl_free; repeat match goal with H : _ = _ |- _ => rewrite H end; simpl;
             rewrite ?Nat.eqb_refl; simpl; reflexivity ]
   | match goal with H : cli _ i = _ |- _ => rewrite H end; discriminate
-  | match goal with H : cli _ i = _ |- _ => rewrite H end; first [discriminate | intros _; discriminate] ].
+  | match goal with H : cli _ i = _ |- _ => rewrite H end; first [discriminate | intros _; discriminate]
+  | first [ intros _; match goal with H : cli _ i = _ |- _ => rewrite H end; discriminate
+          | match goal with H : cli _ i = _ |- _ => rewrite H end; assumption | assumption ] ].
 
 Lemma cl_holder_moves : forall s p, inv1 s -> inv2 s -> cl s = Some p -> G s.
 Proof.
@@ -427,11 +441,11 @@ Proof.
   - (* first select *)
     destruct b.
     + destruct (q_m s Q) as [[HM HC] | HM].
-      * eapply (G_c _ i 0 0); [rewrite Hpc; reflexivity | | rewrite Hpc; discriminate | rewrite Hpc; discriminate].
+      * eapply (G_c _ i 0 0); [rewrite Hpc; reflexivity | | rewrite Hpc; discriminate | rewrite Hpc; discriminate | intros _; rewrite Hpc; discriminate].
         simpl. rewrite HM. reflexivity.
       * destruct (exited_gives s I2 Q) as [HE | HC]; [left; rewrite HM; reflexivity | c_act i 1 0 | c_act i 2 0].
     + destruct (q_t s Q) as [[HT HC] | [[HT [HC _]] | HT]].
-      * eapply (G_c _ i 0 0); [rewrite Hpc; reflexivity | | rewrite Hpc; discriminate | rewrite Hpc; discriminate].
+      * eapply (G_c _ i 0 0); [rewrite Hpc; reflexivity | | rewrite Hpc; discriminate | rewrite Hpc; discriminate | intros _; rewrite Hpc; discriminate].
         simpl. rewrite HT. simpl. reflexivity.
       * assert (X : m_exited (mc s) = true).
         { destruct (g7a s I2 HT) as [X | X]; auto. destruct (q_m s Q) as [[HM _] | HM]; rewrite HM in X; discriminate. }
@@ -472,9 +486,9 @@ Definition active_pc (pc : cpc) : bool :=
   match pc with Idle | W1 _ | OT1 _ | CR1 | RO1 | CL4 | W2 | W3 => false | _ => true end.
 
 Lemma active_moves : forall s i, inv1 s -> inv2 s -> quiet s ->
-  active_pc (cli s i) = true -> (tl s = None \/ cTl (cli s i) = true) -> G s.
+  active_pc (cli s i) = true -> (tl s = None \/ cTl (cli s i) = true) -> (st = Strict -> cli s i <> IdleTr) -> G s.
 Proof.
-  intros s i I1 I2 Q HA HT.
+  intros s i I1 I2 Q HA HT HNI.
   pose proof (q_cl s Q) as HCL.
   assert (HW : wl_is s (PCli i) = cW (cli s i)) by (destruct I1; auto).
   assert (HCc : cC (cli s i) = false).
@@ -488,7 +502,8 @@ Proof.
   all: try (solve [destruct (onat_eqb (tl s) (Some i)) eqn:HU; c_act i 0 0]).
   all: try (solve [eapply (G_c _ i 0 0);
                    [rewrite Hpc; reflexivity | apply reltr_enabled; auto; rewrite Hpc; reflexivity
-                   | rewrite Hpc; discriminate | rewrite Hpc; discriminate]]).
+                   | rewrite Hpc; discriminate | rewrite Hpc; discriminate | intros _; rewrite Hpc; discriminate]]).
+  all: try (solve [destruct (closeC s) eqn:HCC; first [c_act i 0 0 | c_act i 1 0]]).
   - (* WMs *)
     assert (P : pend s <> None) by (apply (l4b s I2 i); rewrite Hpc; reflexivity).
     destruct (pend s) as [j|] eqn:HP; [| congruence].
@@ -504,14 +519,14 @@ Proof.
       * assert (HJ : cli s j = W2) by (apply (l3a s I2 j); auto). c_act i 1 0.
       * c_act i 2 0.
     + assert (HJ : cli s j = W3) by (apply (l3b s I2 j); rewrite HMg; left; reflexivity).
-      eapply (G_c _ i 0 j); [rewrite Hpc; reflexivity | | rewrite Hpc; discriminate | rewrite Hpc; discriminate].
+      eapply (G_c _ i 0 j); [rewrite Hpc; reflexivity | | rewrite Hpc; discriminate | rewrite Hpc; discriminate | intros _; rewrite Hpc; discriminate].
       simpl. unfold guard. rewrite HMg, HJ. simpl. rewrite Nat.eqb_refl. reflexivity.
   - destruct (merged s) as [| j rest] eqn:HMg.
     + destruct (pend s) as [j|] eqn:HP.
       * assert (HJ : cli s j = W2) by (apply (l3a s I2 j); auto). c_act i 1 0.
       * c_act i 2 0.
     + assert (HJ : cli s j = W3) by (apply (l3b s I2 j); rewrite HMg; left; reflexivity).
-      eapply (G_c _ i 0 j); [rewrite Hpc; reflexivity | | rewrite Hpc; discriminate | rewrite Hpc; discriminate].
+      eapply (G_c _ i 0 j); [rewrite Hpc; reflexivity | | rewrite Hpc; discriminate | rewrite Hpc; discriminate | intros _; rewrite Hpc; discriminate].
       simpl. unfold guard. rewrite HMg, HJ. simpl. rewrite Nat.eqb_refl. reflexivity.
   - (* RO2 *)
     destruct (ce s) eqn:HE; [c_act i 0 0 | c_act i 0 0 | c_act i 1 0 | pose proof (g2 s I2 HE) as HC; c_act i 2 0].
@@ -535,16 +550,28 @@ Proof. destruct pc; simpl; intros; try discriminate; auto. Qed.
 
 Definition wwait_pc (pc : cpc) : bool := match pc with W1 _ | OT1 _ | CR1 | RO1 | CL4 => true | _ => false end.
 
-Lemma wwait_moves : forall s i, inv1 s -> inv2 s -> quiet s -> tl s = None ->
+Lemma cW_not_idletr : forall pc, cW pc = true -> pc <> IdleTr.
+Proof. intros pc H E; subst; discriminate. Qed.
+Lemma cTl_not_idletr : forall pc, cTl pc = true -> pc <> IdleTr.
+Proof. intros pc H E; subst; discriminate. Qed.
+Lemma mergephase_not_idletr : forall pc, mergephase pc = true -> pc <> IdleTr.
+Proof. intros pc H E; subst; discriminate. Qed.
+
+(* in the strict reading: closeC is closed, and Close, once it waits for the write lock, never waits for a
+   transaction whose owner is between calls *)
+Definition strict_hyp (s : state) : Prop :=
+  st = Strict -> closeC s = true /\ forall i o, cli s i = CL4 -> trown s = Some o -> cli s o <> IdleTr.
+
+Lemma wwait_moves : forall s i, inv1 s -> inv2 s -> quiet s -> tl s = None -> strict_hyp s ->
   wwait_pc (cli s i) = true -> G s.
 Proof.
-  intros s i I1 I2 Q HTL HWW.
+  intros s i I1 I2 Q HTL HS HWW.
   destruct (wl s) as [| p | |] eqn:HWL.
   - (* free *) destruct (cli s i) eqn:Hpc; simpl in HWW; try discriminate; dparams; c_act i 0 0.
   - destruct p as [h | | |].
     + assert (HC : cW (cli s h) = true).
       { destruct I1 as [IW _ _ _ _ _ _ _ _ _ _]. rewrite <- IW. unfold wl_is. rewrite HWL. simpl. apply Nat.eqb_refl. }
-      apply (active_moves s h); auto using cW_active.
+      apply (active_moves s h); auto using cW_active, cW_not_idletr.
     + exfalso. destruct I1 as [_ IWM _ _ _ _ _ _ _ _ _]. unfold wl_is in IWM. rewrite HWL in IWM. discriminate.
     + exfalso. destruct I1 as [_ _ IWT _ _ _ _ _ _ _ _]. unfold wl_is in IWT. rewrite HWL in IWT. discriminate.
     + assert (LK : locking s = true).
@@ -557,7 +584,12 @@ Proof.
     assert (TO : trown s <> None) by (apply (g10 s I2); auto).
     destruct (trown s) as [o|] eqn:HO; [| congruence].
     pose proof (l7 s I2 o HO) as OK.
-    apply (active_moves s o); auto using owner_active.
+    destruct (rmode_cases st) as [EST | EST].
+    + apply (active_moves s o); auto using owner_active. intro X; congruence.
+    + (* strict: the waiters other than Close leave at closeC; Close does not wait for an owner at IdleTr *)
+      destruct (HS EST) as [HC HK].
+      destruct (cli s i) eqn:Hpc; simpl in HWW; try discriminate; dparams; try (c_act i 2 0).
+      apply (active_moves s o); auto using owner_active. intros _. eapply HK; eauto.
   - (* closed *)
     pose proof (g11 s I2 HWL) as HC.
     destruct (cli s i) eqn:Hpc; simpl in HWW; try discriminate; dparams; try (c_act i 2 0).
@@ -573,19 +605,47 @@ Proof.
     - left. apply (l3a s I2 i) in H. congruence.
     - right. apply (l3b s I2 i) in H. intro E. rewrite E in H. destruct H. }
   destruct (l4 s I2 X) as [h [HW HM]].
-  apply (active_moves s h); auto using mergephase_active.
+  apply (active_moves s h); auto using mergephase_active, mergephase_not_idletr.
 Qed.
 
-Theorem progress : forall s, inv1 s -> inv2 s -> pending s -> G s.
+Theorem progress_gen : forall s, inv1 s -> inv2 s -> strict_hyp s ->
+  (exists i, cli s i <> Idle /\ (st = Strict -> cli s i <> IdleTr)) -> G s.
 Proof.
-  intros s I1 I2 [i Hi].
+  intros s I1 I2 HS [i [Hi Hi2]].
   destruct (to_quiet s I1 I2) as [X | Q]; [exact X|].
   destruct (tl s) as [h|] eqn:HTL.
   - assert (HC : cTl (cli s h) = true) by (destruct I1; auto).
-    apply (active_moves s h); auto using cTl_active.
+    apply (active_moves s h); auto using cTl_active, cTl_not_idletr.
   - destruct (wwait_pc (cli s i)) eqn:HW; [eapply wwait_moves; eauto|].
     destruct (active_pc (cli s i)) eqn:HA; [apply (active_moves s i); auto|].
     destruct (cli s i) eqn:Hpc; simpl in HW, HA; try discriminate; try congruence.
     + eapply passive_moves; eauto.
     + eapply passive_moves; eauto.
+Qed.
+
+End Progress.
+
+Definition G (s : state) : Prop :=
+  exists a, is_arrival fixed s a = false /\ exists s', step fixed s a = Some s'.
+
+Theorem progress : forall s, inv1 s -> inv2 s -> pending s -> G s.
+Proof.
+  intros s I1 I2 [i Hi].
+  destruct (progress_gen Loose s I1 I2) as (a & NA & _ & ST).
+  - intro; discriminate.
+  - exists i. split; auto. intro; discriminate.
+  - exists a. split; auto.
+Qed.
+
+(* the strict reading, for the closing phase *)
+Theorem progress_strict : forall s, inv1 s -> inv2 s -> closeC s = true ->
+  (forall i o, cli s i = CL4 -> trown s = Some o -> cli s o <> IdleTr) ->
+  (exists i, cli s i <> Idle /\ cli s i <> IdleTr) ->
+  exists a, is_arrival fixed s a = false /\ at_idletr s a = false /\ exists s', step fixed s a = Some s'.
+Proof.
+  intros s I1 I2 HC HK [i [H1 H2]].
+  destruct (progress_gen Strict s I1 I2) as (a & NA & NI & ST).
+  - intros _. split; auto.
+  - exists i. split; auto.
+  - exists a. repeat split; auto.
 Qed.
